@@ -116,7 +116,15 @@ def materialise(node, root):
                     lay.jobprojs.add(jrel)
                     # the job directory is itself the root of a nested project
                     lay.projects.append(jrel)
-                    signac.init_project(os.path.join(root, jrel)).doc["name"] = jrel
+                    np_ = signac.init_project(os.path.join(root, jrel))
+                    np_.doc["name"] = jrel
+                    # ... which holds a job with the SAME state point (hence the same id) as the job it lives in
+                    inner = np_.open_job(sp).init()
+                    inner.doc["x"] = -lay.counter
+                    iws = os.path.join(jrel, "workspace")
+                    lay.dirs.append((iws, "workspace"))
+                    lay.jobs.append((os.path.join(iws, inner.id), jrel, inner.id, False))
+                    lay.dirs.append((os.path.join(iws, inner.id), "job"))
                     continue
                 for i, c in enumerate(j[1]):
                     build(c, os.path.join(jrel, f"j{i}"))
